@@ -193,12 +193,23 @@ def check_offline_variant(ix, rep, mon):
         for s in the_if.body:
             if isinstance(s, ast.For):
                 it = s.iter
+                src = None
                 if isinstance(it, ast.Call) and getattr(it.func, 'id', None) == 'enumerate' and isinstance(s.target, ast.Tuple):
                     loopvar = s.target.elts[1].id
                     src = ast.unparse(it.args[0])
+                elif isinstance(it, ast.Call) and getattr(it.func, 'id', None) == 'zip' and isinstance(s.target, ast.Tuple) and len(it.args) == len(s.target.elts):
+                    # for value_sample, verdict_sample in zip(values, verdicts): the verdict component is the one paired with the verdict list
+                    for tg, a_ in zip(s.target.elts, it.args):
+                        if ast.unparse(a_) == satname and isinstance(tg, ast.Name):
+                            loopvar = tg.id
+                            src = satname
+                    if src is None:
+                        src = ast.unparse(it)
                 elif isinstance(s.target, ast.Name):
                     loopvar = s.target.id
                     src = ast.unparse(it)
+                if src is None:
+                    raise AnalysisError('%s: loop over `%s` is not interpreted' % (f.where, ast.unparse(it)[:40]))
                 if src != satname:
                     rep.fail('R-IATABLE', f.module.rel, f.qual, slot + ':verdict-source', 'the loop runs over `%s`, not the verdict list `%s`' % (src, satname), s.lineno)
         rets = returned_names(basef.node)
